@@ -17,7 +17,7 @@ META = dict(
         quick="all pairs of graphs (connected or not) on <=3 nodes, plus equal-size 4-node pairs with <=3 bonds; element "
               "in {C,N}, charge in {0,1}, hcount in {0,1}, order in {1,2}; second graph under the same ids and under "
               "shifted ids with reversed insertion order; WL filter on/off; engines with node_attrs [element,charge] and "
-              "[element] querying the same objects in both orders; induced and monomorphism mode, use_filter on/off; streams of short-lived graph pairs under eager address recycling; WL filter on/off and engine histories also for five-atom hosts (5-ring, branched tree [thorough: 5-chain]) against 3- and 4-atom chain [thorough: star] patterns, and for the two pairs of connected five-atom graphs with equal degree sequences, elements only; graph_morphism.find_graph_isomorphism on all 3-atom pairs and on 4/5-atom graphs against themselves plus one bond under the same numbering, invariant pre-check on/off, both argument orders Additionally a few two-/three-atom shards with charges in {-2,-1}: different labels whose hash() values coincide in CPython.",
+              "[element] querying the same objects in both orders; induced and monomorphism mode, use_filter on/off; streams of short-lived graph pairs under eager address recycling; WL filter on/off and engine histories also for five-atom hosts (5-ring, branched tree [thorough: 5-chain]) against 3- and 4-atom chain [thorough: star] patterns, and for the two pairs of connected five-atom graphs with equal degree sequences, elements only; graph_morphism.find_graph_isomorphism on all 3-atom pairs and on 4/5-atom graphs against themselves plus one bond under the same numbering, invariant pre-check on/off, both argument orders; additionally a few two-/three-atom shards with charges in {-2,-1}: different labels whose hash() values coincide in CPython.",
         thorough="all pairs on <=4 nodes (<=4 bonds)",
     ),
     outside=["graphs > 4 nodes apart from the listed five-atom hosts", "the optional 'mod' rule backend (not installed)", "MultiGraph/DiGraph inputs"],
